@@ -737,6 +737,35 @@ func (d *c17Daemon) checkTables(id, after string) bool {
 		d.fail("C17:fib-effect-wrong", id, "after "+after+" the FIB differs from what the accepted fib commands describe", map[string]any{"fib": gotF, "expected": wantF})
 		return false
 	}
+	// FIB entries produced by the RIB are the flattening of the accepted registrations
+	// (child-inherit / capture semantics as in C06's reference)
+	ref := newRefRib()
+	for ns, m := range d.routes {
+		n, _ := enc.NameFromStr(ns)
+		for _, rt := range m {
+			ref.add(n, rt)
+		}
+	}
+	wantR := map[string]string{}
+	for k, m := range ref.flatten() {
+		if len(m) > 0 {
+			wantR[ref.names[k].String()] = hopsStr(m)
+		}
+	}
+	gotR := map[string]string{}
+	for _, e := range table.FibStrategyTable.GetAllFIBEntries() {
+		s := e.Name().String()
+		if _, listed := wantR[s]; listed || strings.HasPrefix(s, "/r") {
+			hm, _ := copyHops(e.GetNextHops())
+			if len(hm) > 0 {
+				gotR[s] = hopsStr(hm)
+			}
+		}
+	}
+	if !sameStrMap(gotR, wantR) {
+		d.fail("C17:rib-command-fib-effect-wrong", id, "after "+after+" the FIB entries derived from the RIB differ from the flattening of the accepted registrations", map[string]any{"fib": gotR, "expected": wantR, "rib": d.refRibStr()})
+		return false
+	}
 	gotS := map[string]string{}
 	for _, e := range table.FibStrategyTable.GetAllForwardingStrategies() {
 		gotS[e.Name().String()] = e.GetStrategy().String()
